@@ -216,12 +216,18 @@ def run(ctx):
             for n in range(1, N + 1):
                 for how in ("name", "signal"):
                     items.append(("series", uname, A, B, n, how))
+        # beyond ten units, where `units_10` sorts before `units_2`
+        for n in (11, 12) if ctx.quick else (10, 11, 12, 21):
+            items.append(("series", uname, scal[0], scal[1], n, "name"))
+            items.append(("series", uname, scal[1], scal[0], n, "signal"))
         items.append(("wrapper", uname, None, None, 1, "-"))
         if u["target"][0] == "mod":
             items.append(("wrapper", uname, None, None, 1, "-+elab"))
             for n in (1, 2, 3):
                 items.append(("series", uname, scal[0], scal[1], n, "name+elab"))
     for n in range(1, N + 1):
+        items.append(("mosstack", "Mos", "d", "s", n, "-"))
+    for n in (11, 12, 21):
         items.append(("mosstack", "Mos", "d", "s", n, "-"))
     res = ctx.pmap(_one, items, chunk=10)
     for it, (status, detail) in zip(items, res):
